@@ -18,6 +18,7 @@ def run(tier, seed):
     # histories), array lengths by Expression.evaluate (operator tables, operand order, associativity)
     t1 = run_cases(leaf.specs(("write", "read", "roundtrip", "reject"), tier) + lemmas.specs(tier)
                    + [("contracts.cstructfns", "make_fn", ("make_array_identity",))]
+                   + [sp for sp in leaf.array_specs(tier) if sp[1] != "make_array" or sp[2][2] in ("read_array_n", "read_array_eof", "read_0")]
                    + [("contracts.exprs", "make_expr", (w,)) for w in ("tables", "evaluate_exp", "precedence", "rewrite-idempotent")] + exprs.shape_specs(tier))
     rep.add_case_results(t1, "T1")
     progs = programs_for(tier, seed)
